@@ -10,11 +10,11 @@ MOD=$(grep -ho "mod [a-z_0-9]*seeded[a-z_0-9]*" $O/demo.diff | head -1 | awk '{p
 [ -z "$MOD" ] && MOD=seeded
 echo "== demo module filter: $MOD"
 export CARGO_NET_OFFLINE=true
-R1=$(cargo test --offline -p gneiss-mqtt --features ${FEATURES:-testing,tokio,threaded} --lib $MOD 2>&1 | grep "^test result" | head -1)
+R1=$(cargo test --offline -p ${PKG:-gneiss-mqtt} --features ${FEATURES:-testing,tokio,threaded} --lib $MOD 2>&1 | grep "^test result" | head -1)
 echo "demo WITHOUT change: $R1"
 git apply $O/patch.diff || { echo "patch.diff does not apply"; exit 2; }
 cargo build --workspace --offline 2>&1 | tail -1
-R2=$(cargo test --offline -p gneiss-mqtt --features ${FEATURES:-testing,tokio,threaded} --lib $MOD 2>&1 | grep "^test result" | head -1)
+R2=$(cargo test --offline -p ${PKG:-gneiss-mqtt} --features ${FEATURES:-testing,tokio,threaded} --lib $MOD 2>&1 | grep "^test result" | head -1)
 echo "demo WITH change:    $R2"
 git apply -R $O/demo.diff
 /verif/tools/baseline_check.sh $W | head -5
